@@ -131,8 +131,10 @@ class TimeTriggerDecorator(TriggerDecorator):
                 await asyncio.sleep(timeout)
                 _LOGGER.debug("%s finish sleeping for %s seconds", self, timeout)
                 while True:
+                    # time_next is the local (wall clock) trigger time, so that's the one to compare
+                    # against the local time now; time_next_adj only gives the duration to sleep
                     now = dt_now()
-                    timeout = (time_next_adj - now).total_seconds()
+                    timeout = (time_next - now).total_seconds()
                     if timeout <= 1e-6:
                         break
                     _LOGGER.debug("%s additional sleep for %s seconds", self, timeout)
